@@ -35,10 +35,12 @@ pub fn run(suite: &str, a: &[&str]) -> Option<String> {
             if b0 != b1 {
                 return Some(format!("FAIL bounding boxes differ {:?} {:?}", b0, b1));
             }
-            match diff(&m0, &m1) {
-                Some(d) => format!("FAIL class=default_vs_native pixel maps differ: {}", d),
-                None => format!("OK {}", m0.len()),
+            for (i, (x, y)) in m0.iter().zip(m1.iter()).enumerate() {
+                if let Some(d) = diff(x, y) {
+                    return Some(format!("FAIL class=default_vs_native pixel maps differ after op {}: {}", i + 1, d));
+                }
             }
+            format!("OK {}", m0.last().map(|m| m.len()).unwrap_or(0))
         }
         "p_c01_zoo" => {
             let bb = rc(a[0], a[1], a[2], a[3]);
